@@ -202,6 +202,11 @@ func c10Run(c *Ctx, v memVec) {
 func c10Vector(c *Ctx, raw stdjson.RawMessage) {
 	var v memVec
 	if err := stdjson.Unmarshal(raw, &v); err != nil || len(v.Hist) == 0 {
+		var jv jsonVec
+		if stdjson.Unmarshal(raw, &jv) == nil && jv.Shape != nil {
+			c.Nontrivial()
+			c10Wide(c, jv.Shape)
+		}
 		return
 	}
 	c.Nontrivial()
@@ -213,6 +218,11 @@ func c10Vector(c *Ctx, raw stdjson.RawMessage) {
 }
 
 func c10Replay(c *Ctx, raw stdjson.RawMessage) {
+	var w c10WideCase
+	if stdjson.Unmarshal(raw, &w) == nil && w.Shape != nil {
+		c10WideReplay(c, w)
+		return
+	}
 	var k c10Case
 	if stdjson.Unmarshal(raw, &k) == nil {
 		c10Run(c, k.Vec)
